@@ -174,11 +174,11 @@ def _populate(v, values):
         func = sym.lambdify(par, v)
 
         try:
-            vals = {str(p): values[str(p)] for p in par}
+            vals = [values[str(p)] for p in par]
         except KeyError:
             raise ValueError("Invalid value for free parameter provided")
 
-        return func(**vals)
+        return func(*vals)
 
     if isinstance(v, np.ndarray) and v.dtype == object:
         populated = copy.deepcopy(v)
@@ -353,11 +353,11 @@ class BlackbirdProgram:
                     func = sym.lambdify(par, a)
 
                     try:
-                        vals = {str(p): kwargs[str(p)] for p in par}
+                        vals = [kwargs[str(p)] for p in par]
                     except KeyError:
                         raise ValueError("Invalid value for free parameter provided")
 
-                    op['args'][idx] = func(**vals)
+                    op['args'][idx] = func(*vals)
 
                 elif isinstance(a, (np.ndarray, list)):
                     # the parameters may be inside an array or a list
@@ -369,11 +369,11 @@ class BlackbirdProgram:
                     func = sym.lambdify(par, v)
 
                     try:
-                        vals = {str(p): kwargs[str(p)] for p in par}
+                        vals = [kwargs[str(p)] for p in par]
                     except KeyError:
                         raise ValueError("Invalid value for free parameter provided")
 
-                    op['kwargs'][k] = func(**vals)
+                    op['kwargs'][k] = func(*vals)
 
                 elif isinstance(v, (np.ndarray, list)):
                     # the parameters may be inside an array or a list
@@ -387,11 +387,11 @@ class BlackbirdProgram:
                 func = sym.lambdify(par, v)
 
                 try:
-                    vals = {str(p): kwargs[str(p)] for p in par}
+                    vals = [kwargs[str(p)] for p in par]
                 except KeyError:
                     raise ValueError("Invalid value for free parameter provided")
 
-                prog._var[k] = func(**vals)
+                prog._var[k] = func(*vals)
             # or encapsulated in an array
             elif isinstance(v, np.ndarray):
                 # look through the array and, if there are any parameters,
@@ -403,11 +403,11 @@ class BlackbirdProgram:
                         func = sym.lambdify(par, v[i][j])
 
                         try:
-                            vals = {str(p): kwargs[str(p)] for p in par}
+                            vals = [kwargs[str(p)] for p in par]
                         except KeyError:
                             raise ValueError("Invalid value for free parameter provided")
 
-                        populated_array[i][j] = func(**vals)
+                        populated_array[i][j] = func(*vals)
 
                     prog._var[k] = populated_array
 
